@@ -72,7 +72,7 @@ def exH : Ser → List Char
       r.flatMap (fun x => '.' :: List.replicate x 'r')) ++ [';']
   | .value v => 'v' :: List.replicate v 'x' ++ [';']
   | .rules s => 'r' :: s
-  | .explicit e => 'e' :: e ++ [';']
+  | .explicit n e => 'e' :: (List.replicate n 'n' ++ '#' :: e) ++ [';']
 
 example : rules exProg3 id 0 ≠ rules exProg3 List.reverse 0 := by decide +kernel
 example : version exH exProg3 id 0 = version exH exProg3.reverse List.reverse 0 := by decide +kernel
